@@ -365,6 +365,18 @@ func (env *Env) build(st *Step) error {
 		return errors.HandledInDomain(e, errors.NamedDomain(s))
 	case "HandledInDomainWithMessage":
 		return errors.HandledInDomainWithMessage(e, errors.NamedDomain(at(st.A, 0)), s)
+	case "EnsureNotInDomain":
+		var forbidden []errors.Domain
+		for _, a := range st.A {
+			if len(a) == 1 && a[0] == "NODOM" {
+				forbidden = append(forbidden, errors.NoDomain)
+			} else {
+				forbidden = append(forbidden, errors.NamedDomain(tok.Str(a)))
+			}
+		}
+		return errors.EnsureNotInDomain(e, func(_ errors.Domain, err error) error {
+			return errors.HandledInDomain(err, errors.NamedDomain(s))
+		}, forbidden...)
 	case "HandleAsAssertionFailure":
 		return errors.HandleAsAssertionFailure(e)
 	case "NewAssertionErrorWithWrappedErrf":
